@@ -191,13 +191,20 @@ func (c *FuncCtx) mergeStates(edges []inEdge, label string) *State {
 					all = false
 				}
 			}
-			if !all {
+			if !all && !(label == "exit" && strings.HasPrefix(k, "L:")) {
 				continue
 			}
 		}
 		vals := make([]Term, len(edges))
 		same := true
 		for i, e := range edges {
+			if ki.local && !e.st.has(k) {
+				// at the function exit a postcondition may name a local that a return path never
+				// declared: it has an arbitrary value on that path
+				vals[i] = c.sc.fresh("undeclared", ki.sort)
+				same = false
+				continue
+			}
 			vals[i] = c.get(e.st, k)
 			if vals[i].S != vals[0].S {
 				same = false
